@@ -26,9 +26,9 @@ START_CODONS = ("ATG", "GTG", "TTG")      # from the property statement
 STOP_CODONS = ("TAA", "TAG", "TGA")
 
 RULE = (
-    "scan family: (a) every string over {A,T,G} up to the tier's length bound (quick 9, thorough 11); "
+    "scan family: (a) every string over {A,T,G} up to the tier's length bound (quick 9, thorough 10); "
     "strings that contain an ORF are scanned on both strands for every record length in "
-    "{n, n+1, n+4} (thorough: n..n+6) with EVERY offset in [-L, L) (both the negative-offset and the "
+    "{n, n+1, n+4} (thorough: n, n+1, n+2, n+3, n+5) with EVERY offset in [-L, L) (both the negative-offset and the "
     "past-the-end convention for a window crossing the origin) plus record_length=None, and for every "
     "minimum length in {0, each ORF length, each ORF length + 1} on a rotating subset of those "
     "windows; strings without an ORF get both strands, minimum lengths {0, 3, 6, 9} on one rotating "
@@ -249,6 +249,7 @@ def eval_scan(case: dict[str, Any]) -> list[tuple[str, bool, str]]:
 # find_all_orfs
 # --------------------------------------------------------------------------------------------------
 CL_F_EXC = "find-no-unexpected-exception"
+CL_F_EXC_INNER = "find-no-unexpected-exception/origin-spanning-area-and-gene-with-inner-gene-ending-near-its-end"
 CL_F_GAP = "found-orf-overlaps-no-gene-by-more-than-allowed"
 CL_F_GAP_HIDDEN = "found-orf-overlaps-no-gene-by-more-than-allowed/gene-hidden-from-area-lookup"
 CL_F_GAP_INNER = "found-orf-overlaps-no-gene-by-more-than-allowed/gene-with-inner-gene-ending-near-its-end"
@@ -264,6 +265,33 @@ def _bases(parts: list[list[int]]) -> set[int]:
     for start, end in parts:
         out.update(range(start, end))
     return out
+
+
+def longest_shared_run(own: set[int], other: set[int], size: int, circular: bool) -> int:
+    """Longest stretch of consecutive record positions that belong to both sets (on a circular record the
+    last and the first position are consecutive).  An ORF lies in a gap 'up to the allowed overlap' when it
+    reaches into a bordering gene by at most that many bases at a boundary; a gene that borders the gap on
+    both sides (around the origin) is reached into twice."""
+    shared = own & other
+    if not shared:
+        return 0
+    if len(shared) == size:
+        return size
+    best = 0
+    for position in shared:
+        before = position - 1
+        if before < 0 and circular:
+            before = size - 1
+        if before in shared:
+            continue  # not the first base of its run
+        run, current = 0, position
+        while current in shared and run < size:
+            run += 1
+            current += 1
+            if current == size and circular:
+                current = 0
+        best = max(best, run)
+    return best
 
 
 def _sort_key(gene: dict[str, Any], size: int) -> tuple[int, int]:
@@ -312,6 +340,12 @@ def genes_with_inner_gene_near_end(case: dict[str, Any]) -> set[int]:
     return outer
 
 
+def _find_exception_clause(case: dict[str, Any]) -> str:
+    if case.get("area") and len(case["area"]) > 1 and genes_with_inner_gene_near_end(case):
+        return CL_F_EXC_INNER
+    return CL_F_EXC
+
+
 def _make_location(parts: list[list[int]], strand: int) -> Any:
     from antismash.common.secmet.locations import CompoundLocation, FeatureLocation  # pylint: disable=import-outside-toplevel
     built = [FeatureLocation(start, end, strand) for start, end in parts]
@@ -346,8 +380,8 @@ def eval_find(case: dict[str, Any]) -> tuple[list[tuple[str, bool, str]], int]:
         features = find_all_orfs(record, area, min_length=case["min"], max_overlap=case["ov"])
         described = [(str(f.location), flatten(f.location), str(f.translation)) for f in features]
     except Exception as err:  # pylint: disable=broad-except
-        return [(CL_F_EXC, False, f"{type(err).__name__}: {err}")], 0
-    results: list[tuple[str, bool, str]] = [(CL_F_EXC, True, "")]
+        return [(_find_exception_clause(case), False, f"{type(err).__name__}: {err}")], 0
+    results: list[tuple[str, bool, str]] = [(_find_exception_clause(case), True, "")]
 
     hidden = genes_hidden_from_area_lookup(case)
     inner = genes_with_inner_gene_near_end(case)
@@ -363,10 +397,10 @@ def eval_find(case: dict[str, Any]) -> tuple[list[tuple[str, bool, str]], int]:
     for text, (order, strands), translation in described:
         own = set(order)
         for index, bases in enumerate(gene_bases):
-            shared = len(own & bases)
+            shared = longest_shared_run(own, bases, len(sequence), bool(case["circ"]))
             if shared > case["ov"]:
                 bad_gap[gap_clause[index]].append(
-                    f"{text} shares {shared} bases with gene {case['genes'][index]['parts']} (allowed {case['ov']})")
+                    f"{text} reaches {shared} bases into gene {case['genes'][index]['parts']} (allowed {case['ov']})")
         if area_bases is not None and not own <= area_bases:
             bad_area.append(f"{text} leaves the area {case['area']}")
         strand = -1 if strands == {-1} else 1
@@ -376,7 +410,9 @@ def eval_find(case: dict[str, Any]) -> tuple[list[tuple[str, bool, str]], int]:
         rev_wrap = strand == -1 and _wraps(order)
         clause = CL_F_TRANSLATION_REV_WRAP if rev_wrap else CL_F_TRANSLATION
         seen.add(clause)
-        if not in_range or translation != translate_orf(dna):
+        # the first residue may be the forced M or the literal translation of the start codon
+        plain = translate_codon(dna[:3].upper()) + translate_orf(dna)[1:] if len(dna) >= 3 and translate_orf(dna) else ""
+        if not in_range or translation not in (translate_orf(dna), plain):
             bad.setdefault(clause, []).append(
                 f"{text} reads {dna!r} = {translate_orf(dna)!r}, feature says {translation!r}")
         clause = CL_F_IS_ORF_REV_WRAP if rev_wrap else CL_F_IS_ORF
@@ -411,7 +447,7 @@ def replay(case: dict[str, Any]) -> list[str]:
 def _windows(n: int, tier: str) -> list[tuple[Optional[int], int]]:
     """(record_length, offset) for a scanned string of n bases: no record (linear coordinates), and
     records of n .. n+k bases with every offset in [-L, L)."""
-    extras = (0, 1, 4) if tier == "quick" else (0, 1, 2, 3, 4, 5, 6)
+    extras = (0, 1, 4) if tier == "quick" else (0, 1, 2, 3, 5)
     combos: list[tuple[Optional[int], int]] = [(None, 0), (None, 1), (None, 7)]
     for extra in extras:
         length = n + extra
@@ -451,7 +487,7 @@ def _cases_for_string(seq: str, index: int, tier: str, sweep: bool, spot: int) -
 
 def gen_s1(tier: str, part: int, of: int) -> Iterator[dict[str, Any]]:
     """every string over {A,T,G} up to the bound"""
-    bound = 9 if tier == "quick" else 11
+    bound = 9 if tier == "quick" else 10
     index = 0
     for n in range(0, bound + 1):
         for letters in itertools.product("ATG", repeat=n):
@@ -645,6 +681,22 @@ def gen_find(tier: str) -> Iterator[dict[str, Any]]:
                         for other in spans[k::5 if thorough else 7]:
                             yield _find_case(rec, True, [_origin_gene(start, end, size, strand), _gene(*other)],
                                              area, 6, overlap)
+    # FD: origin-spanning area, a gene with an inner gene ending near its end, large allowed overlap
+    for name in ("A4", "B5", "C3") if thorough else ("A4", "B5"):
+        rec = recs[name]
+        size = len(rec)
+        area = [[size - 30, size], [0, 25]]
+        for o_start in (size - 29, size - 20):
+            for o_end in (size - 8, size - 2, size):
+                for i_start in (o_start + 2, o_start + 8):
+                    for back in (1, 4, 9, 15):
+                        i_end = o_end - back
+                        if i_end - i_start < 3:
+                            continue
+                        for overlap in (6, 10):
+                            genes = [_gene(o_start, o_end), _gene(i_start, i_end, -1)]
+                            yield _find_case(rec, True, genes, area, 6, overlap)
+                            yield _find_case(rec, True, genes + [_gene(3, 9)], area, 6, overlap)
     if thorough:
         # triples on a coarse grid, whole record
         rec = recs["B"]
@@ -672,6 +724,7 @@ def gen_random_find(run: Any) -> Iterator[dict[str, Any]]:
             else:
                 start = rng.randint(0, size - 3)
                 genes.append(_gene(start, rng.randint(start + 3, size), rng.choice((1, -1))))
+        genes = [g for i, g in enumerate(genes) if g not in genes[:i]]
         area = None
         roll = rng.random()
         if roll < 0.3:
@@ -739,7 +792,7 @@ def run_shard(shard: dict[str, Any], run: Any) -> None:
         return
     exhaustive = not fam.startswith("random")
     for count, case in enumerate(cases):
-        if not exhaustive and count >= 400000:
+        if not exhaustive and count >= (150000 if fam == "random-scan" else 20000):
             break
         if exhaustive and count % 512 == 0 and run.out_of_time():
             break
@@ -750,6 +803,6 @@ FINDING_CLASSES: dict[str, Any] = {
     "C15-F1": lambda clause, case: clause == CL_EXACT,
     "C15-F2": lambda clause, case: clause in (CL_EXTRACT_REV_WRAP, CL_F_IS_ORF_REV_WRAP, CL_F_TRANSLATION_REV_WRAP),
     "C15-F3": lambda clause, case: clause == CL_WHOLE,
-    "C15-F4": lambda clause, case: clause == CL_F_GAP_INNER,
+    "C15-F4": lambda clause, case: clause in (CL_F_GAP_INNER, CL_F_EXC_INNER),
     "C15-F5": lambda clause, case: clause == CL_F_GAP_HIDDEN,
 }
